@@ -326,6 +326,73 @@ class CFG:
                 queue.append(s)
         return None
 
+    def visited_under(self, start: int, decide, stop=frozenset()):
+        """Node ids visited from ``start`` (inclusive) when every ``if`` /
+        ``while`` test is resolved by ``decide(test expr)`` -> True / False
+        (None: follow both branches).  May-raise edges are not followed;
+        nodes in ``stop`` are recorded but not left.  This is the set of
+        statements executed, under one valuation of the tests, in straight
+        structured code - the exact counterpart of necessary_conditions at
+        join points."""
+        seen = set()
+        work = [start]
+        while work:
+            n = work.pop()
+            if n in seen:
+                continue
+            seen.add(n)
+            if n in stop:
+                continue
+            node = self.nodes[n]
+            st = node.stmt
+            succ = [b for b in node.succ if (n, b) not in self.exc_edges]
+            if node.kind == "test" and isinstance(st, (ast.If, ast.While)) \
+                    and id(st) in self.branches:
+                bt, bf = self.branches[id(st)]
+                v = decide(st.test)
+                if v is True:
+                    succ = [b for b in succ if b == bt]
+                elif v is False:
+                    succ = [b for b in succ if b != bt]
+            work.extend(succ)
+        return seen
+
+    def trace_under(self, start: int, decide, stop=frozenset(), limit=400):
+        """The ordered list of node ids executed from ``start`` when every
+        test is decided by ``decide`` (see visited_under); None as soon as a
+        test is undecided or the path forks for another reason (loops are
+        not entered twice: a node seen before ends the trace)."""
+        out, seen = [], set()
+        n = start
+        while n is not None and len(out) < limit:
+            if n in seen:
+                break
+            seen.add(n)
+            out.append(n)
+            if n in stop:
+                break
+            node = self.nodes[n]
+            st = node.stmt
+            succ = [b for b in node.succ if (n, b) not in self.exc_edges]
+            if node.kind == "test" and isinstance(st, (ast.If, ast.While)) \
+                    and id(st) in self.branches:
+                bt, _bf = self.branches[id(st)]
+                v = decide(st.test)
+                if v is None:
+                    return None
+                succ = [b for b in succ if (b == bt) == bool(v)]
+            elif node.kind == "iter":
+                # a for loop: take the body once, then leave
+                body = [b for b in succ if self.nodes[b].stmt is not None
+                        and b != n and b not in seen]
+                inner = [b for b in body
+                         if self.parent.get(id(self.nodes[b].stmt)) is st]
+                succ = inner[:1] or [b for b in succ if b not in seen][:1]
+            if len(succ) > 1:
+                return None
+            n = succ[0] if succ else None
+        return out
+
     def dominates(self, a: int, b: int) -> bool:
         if a == b:
             return True
